@@ -304,7 +304,7 @@ func c01Run(r *vg.Rand, k int) (term string, descr string, nontrivial bool, deci
 	opName := ""
 	if scripted {
 		var f int
-		f, opening, opName = c01Opening(r, c01Rotation(state, 4), r.Intn(4))
+		f, opening, opName = c01Opening(r, c01Rotation(state, 4), (k/4)%4)
 		net.faulty = []int{f}
 	} else {
 		var fpow int64
@@ -662,7 +662,7 @@ func c03Run(r *vg.Rand, k int) (term, descr string, allDecided bool, kind string
 	opName := ""
 	if scripted {
 		var f int
-		f, opening, opName = c01Opening(r, c01Rotation(state, 4), r.Intn(4))
+		f, opening, opName = c01Opening(r, c01Rotation(state, 4), (k/4)%4)
 		net.faulty = []int{f}
 	} else {
 		for _, i := range r.Perm(nv)[:nf] {
